@@ -22,6 +22,8 @@ MUTANTS = [
     {'name': 'path: the walk is not reversed', 'file': SA, 'old': '        align.append(where)\n    return list(reversed(align))', 'new': '        align.append(where)\n    return list(align)'},
     {'name': 'original-defect: substring distance starts every prefix at cost 0', 'file': SA,
      'old': "    dist[:-1] = np.arange(len(target) + 1) * ins_cost\n    dist[-1] = dist[-2]\n    for s in source:\n        dist[1:-1] = np.minimum", 'new': "    dist[:-1] = 0\n    dist[-1] = dist[-2]\n    for s in source:\n        dist[1:-1] = np.minimum"},
+    {'name': 'substring alignment: free trailing part starts one symbol late', 'file': SA,
+     'old': '    for char in source[suffix_beginning - 1:]:', 'new': '    for char in source[suffix_beginning:]:'},
     {'name': 'edit statistics: deletions counted among the substitutions', 'file': SA, 'old': '    nsub = nphn - ncor - ndel', 'new': '    nsub = nphn - ncor'},
     {'name': 'aggregate: substitutions summed from the insertions', 'file': ES, 'old': '            total_nb_subs += err.nb_subs', 'new': '            total_nb_subs += err.nb_inss'},
     {'name': 'line summary: distance computed with substitution cost 2 while the alignment uses unit costs', 'file': ES,
@@ -29,7 +31,7 @@ MUTANTS = [
     {'name': 'line summary: reference length taken from the hypothesis', 'file': ES, 'old': '        ref_len = len(ref)', 'new': '        ref_len = len(hyp)'},
 ]
 PROOF_KEYS = ['levenshtein_distance', 'levenshtein_alignment', 'levenshtein_alignment_path',
-              'levenshtein_distance_substring']
+              'levenshtein_distance_substring', 'levenshtein_alignment_substring']
 
 COSTS_Q = [(1, 1, 1), (1, 2, 3), (3, 1, 2)]
 COSTS_T = [(1, 1, 1), (1, 2, 3), (3, 1, 2), (2, 4, 1), (4, 3, 4), (2, 2, 1)]
@@ -174,8 +176,10 @@ def run(ctx):
         'five counts are the suffix-recursive counts of the alignment; ErrorsSummary.from_lists (over the contracts of '
         'levenshtein_distance, levenshtein_alignment and edit_stats_for_alignment): nb_errors is the unit-cost distance and '
         'nb_subs + nb_inss + nb_dels == nb_errors, with the lemmas LEV(ref,hyp) == LEV(hyp,ref) and cost == number of unequal '
-        'pairs proved by induction.  levenshtein_alignment_substring is NOT proved: bounded run-time contract (exhaustive '
-        'small domain) only.')
+        'pairs proved by induction.  levenshtein_alignment_substring: Sellers matrix with a backtrack certificate, the best end '
+        'row tracked in an extra column; the result is (walk back from the best end) ++ (free trailing source symbols), the walk '
+        'projects onto source[:end] and the whole target, its first `lead` pairs are free deletions and cost(walk) - lead*del == '
+        'BEST(n), the optimum over all substrings; after the argument swap the pairs are turned round.')
     keys = [(seqalign.PATH, k) for k in PROOF_KEYS] + [(seqalign.PATH, 'edit_stats_for_alignment'),
                                                       (seqalign.ES_PATH, 'ErrorsSummary.aggregate'),
                                                       (seqalign.ES_PATH, 'ErrorsSummary.from_lists')]
